@@ -125,6 +125,8 @@ def gen_case(seed, i, mode):
         # the editor's "restart server": the client is used again right after close(), while the old server
         # process may still be on its way out
         'session2_at_once': r.random() < 0.5,
+        # a later call in the second session (whatever close() left running in the background has fired by then)
+        'session2_again': r.choice((0, 0, 0.5, 3.0, 6.0, 30.0)),
     }
     if mode == 'launchfail':
         f = {}
@@ -528,6 +530,11 @@ class Run(object):
                 src = 'return %r' % tok
             try:
                 result['value'] = env.eval(src)
+                if case.get('session2_again') and vanish_at is None:
+                    k.sleep(case['session2_again'], ('harness', 'think-in-session2'))
+                    result['value2'] = env.eval("return 'second again'")
+                    if result['value2'] != 'second again':
+                        self.vio('C16/answers/session2-again', 'later call of the second session returned %r' % (result['value2'],))
             except KernelAbort:
                 raise
             except Exception as e:
